@@ -78,12 +78,10 @@ def ops_sig(ops):
 
 
 def view_sig(P, pos, rev, st, ops):
-    """class of the view for failure keys: orientation, strided, proper sub-view, and the non-slice steps taken"""
+    """class of the view for failure keys: orientation, strided, and the non-plain-slice steps taken"""
     parts = ["rev" if rev else "fwd"]
     if st > 1:
         parts.append("strided")
-    if len(pos) < len(P):
-        parts.append("sub")
     parts += sorted({op_kind(o) for o in ops} & {"cp", "dc", "dg", "s-"})
     return ",".join(parts)
 
@@ -312,7 +310,8 @@ def check_queries(x, case, tag, sig, P, off, pos, rev, st, fdict, extra_kw=None)
     retained = set(pos)
     expect_slice = {n: feat_residues(P, off, f[2], f[3], retained) for n, f in fdict.items()}
     Fabs = {n: feat_positions(f[2]) for n, f in fdict.items()}
-    label = {n: f"{feat_kind(f[2], f[3])}:{state_of(Fabs[n], off, pos)}" for n, f in fdict.items()}
+    label = {n: f"{len(f[2])}span:{state_of(Fabs[n], off, pos)}" for n, f in fdict.items()}
+    slabel = {n: f"{feat_kind(f[2], f[3])}:{state_of(Fabs[n], off, pos)}" for n, f in fdict.items()}
     sliced_ok = set()
     nontrivial = False
     shown = display(P, pos, rev)
@@ -348,11 +347,6 @@ def check_queries(x, case, tag, sig, P, off, pos, rev, st, fdict, extra_kw=None)
                 if zero:
                     must, may = False, True
                 if must and n not in names:
-                    db = getattr(x, "annotation_db", None)
-                    if db is None or len(db) == 0:
-                        return ("fail", f"{tag}/get_features/annotations-dropped/view={sig}",
-                                f"{ctx} returned {names}: the view has no annotation db any more; feature {n!r} "
-                                f"{fd[2]}{fd[3]} (absolute) is displayed at root positions {W}")
                     return ("fail", f"{tag}/get_features/missing/{wkind}/partial={partial}/{label[n]}/view={sig}",
                             f"{ctx} returned {names}; feature {n!r} {fd[2]}{fd[3]} (absolute, offset {off}) must be "
                             f"returned: the window displays root positions {W}")
@@ -370,7 +364,7 @@ def check_queries(x, case, tag, sig, P, off, pos, rev, st, fdict, extra_kw=None)
                 ident = (f.name, repr(f.map), f._strand)
                 if ident in sliced_ok:
                     continue
-                r = check_feature_slice(x, f, expect_slice[f.name], tag, sig, label[f.name], ctx)
+                r = check_feature_slice(x, f, expect_slice[f.name], tag, sig, slabel[f.name], ctx)
                 if r is not None:
                     return r
                 sliced_ok.add(ident)
@@ -406,10 +400,28 @@ def run_history(x, hist, P, tag, case, apply):
                                      f"{case}: history step {op} on view {display(P, pos, rev)!r} raised "
                                      f"{type(e).__name__}: {e}")
         pos, rev, st = pos2, rev2, st2
+        db = getattr(x, "annotation_db", None)
+        if db is None or len(db) == 0:
+            return x, pos, rev, st, ("fail", f"{tag}/history/{op_kind(op)}/annotations-dropped",
+                                     f"{case}: after history step {op} the view {display(P, pos, rev)!r} has no "
+                                     f"annotations any more (annotation_db={db!r}), so no feature that it displays "
+                                     f"can be returned")
     return x, pos, rev, st, None
 
 
 def contract_seq(case):
+    """the failure of a history is reported for its shortest failing prefix, so that one defect gives one key"""
+    new, rid, load, featset, hist = case
+    res = _contract_seq(case)
+    if res[0] == "fail":
+        for k in range(len(hist)):
+            r = _contract_seq([new, rid, load, featset, hist[:k]])
+            if r[0] == "fail":
+                return r
+    return res
+
+
+def _contract_seq(case):
     new, rid, load, featset, hist = case
     P, off = SEQ_ROOTS[rid]
     tag = f"seq/{'new' if new else 'old'}/{load}" + ("/offset" if off else "")
